@@ -115,7 +115,7 @@ var hostileTargets = []string{
 	"/verif.v1.Svc/Nope", "/verif.v1.Svc/", "/verif.v1.Nope/Unary", "/", "//", "/:", "/v1/unary", "/v1/unary/", "/v1/pure/x", "/v1/pure/x:", "/v1/pure/",
 	"/v1/pure/a%2Fb", "/v1/pure/%41", "/v1/multi/a/b/c", "/v1/multi/", "/v1/m2/a/b/x/y", "/v1/nested/x:act", "/v1/nested/x:nope", "/v1/scalar/x/y",
 	"/v1/blob/n", "/v1/raw", "/v1/down/f", "/v1/up/f", "/v1/idem/k", "/" + strings.Repeat("a", 4096),
-	"/verif.v1.Svc/RawIO", "/verif.v1.Svc/Download", "/verif.v1.Svc/Upload", "/verif.v1.Svc/Blob",
+	"/verif.v1.Svc/RawIO", "/verif.v1.Svc/Download", "/verif.v1.Svc/Upload", "/verif.v1.Svc/Blob", "/verif.v1.Svc/Idem",
 }
 
 var hostileQueries = []string{
